@@ -45,7 +45,7 @@ func astreamH(line string) string {
 	}()
 	select {
 	case <-done:
-	case <-time.After(5 * time.Second):
+	case <-time.After(watchdog(5)):
 		mustRestart = true
 		return "HANG"
 	}
